@@ -83,6 +83,11 @@ CHECKS = {
     technique='TLA+ spec TwoPass.tla: TLC explores every interleaving of the two-pass count/fill with private prefix offsets and proves block / thread-split arithmetic for all sizes; gen_gal_cat compared bit-for-bit across 1..16 threads; schedule replay of fast_concatenate',
     text='TLC explores all interleavings of T<=3 (4) workers over every classification of <=5 (6) hosts: blocks partition the hosts, offsets stay in bounds, no slot written twice, result = hosts in index order (shared-counter and wrong-prefix variants rejected), and proves that rint(linspace) blocks partition 0..H (H<=80/300, T<=32) and that fast_concatenate\'s proportional split copies every index exactly once (N1,N2<=24/48, T<=16). gen_gal_cat is run with Nthread=1..16 on table sizes 0,1,2,5,15,17,33,101 (+more thorough) x tracer subsets x rsd/observer/ranks: every column, row order and Ncent bit-identical to one thread; fast_concatenate equals numpy for all small (N1,N2,T); conflict-directed and random schedules replayed on its real source with sentinel outputs.',
     note='Compiled runs do not force interleavings; forced schedules use the interpreted source.'),
+ 'C12': dict(
+    design='DESIGN.md §5 C12',
+    technique='TLA+ spec HodStaging.tla: TLC checks, for every arrangement of halo ids over slab files and every flag combination, that the staging algorithm (concatenate, sortedness test, one permutation applied to a set of arrays) leaves every per-halo array aligned; arrangements replayed through the real AbacusHOD constructor on synthetic HDF5 slabs',
+    text='TLC enumerates every ordering of <=4 (quick) / 5 (thorough) distinct ids cut into <=3 slab files x flags and proves Aligned / IdsIncreasing for the staging algorithm with the current list of permuted arrays (the original list is rejected as control). Each arrangement (a spread subset in the quick tier) is written as HDF5 subsample slabs + header; AbacusHOD is constructed with rotating flags (assembly bias, shear, ranks, exponential velocities) and with two chunks; every array of halo_data (13 arrays) is decoded to the halo id it describes and compared with hid row by row; particle host indices, host attributes and ranks are checked.',
+    note='Synthetic HDF5/ASDF inputs; attributes are injective functions of the id.'),
 }
 NA = [
  dict(property_id='C18', reason='Pure real-valued geometry (square roots, sines, cross products) on a fixed finite domain of 65 340 codes: no state, order, schedule or index structure for a TLA+ transition system, and orthonormality/coverage are floating-point facts outside TLC integer arithmetic; an exhaustive numeric sweep would be a different technique (DESIGN.md §7).'),
